@@ -40,6 +40,9 @@ SCENARIOS = [
          hot=(100, 10), cold=(200, 10)),
     # F7 (recorded known finding): each of two overlapping observations fits the free space it sees at admission, together they do not
     dict(name='tight-hot-overlap', obs=[('a', 0, 5, 10, 4, 1), ('b', 1, 5, 10, 4, 1)], hot=(30, 10)),
+    # F9 (recorded known finding): two observations due in the same step are both admitted against the same 4 available machines
+    # (3 + 2 machines within the ingest limit 5); the second provisioning raises RuntimeError and the run dies
+    dict(name='same-start-short-of-machines', obs=[('a', 1, 3, 10, 2, 3), ('b', 1, 2, 10, 1, 2)], max_ingest=5, run_failure_is='C08'),
 ]
 
 
@@ -78,6 +81,7 @@ class Run:
         p = mkcfg(self.dir, self.obs, self.wf, max_ingest=scenario.get('max_ingest', 2), hot=scenario.get('hot', (200, 10)),
                   cold=scenario.get('cold', (200, 10)))
         self.due_idle = None
+        self.run_failure_is = scenario.get('run_failure_is', 'RUN')     # which property an aborted run is a violation of
         self.env = simpy.Environment()
         sched = BatchProcessing(min_resources_per_workflow=1, max_resource_partitions=2) if alg == 'batch' else QueueProcessing()
         self.sim = Simulation(self.env, p, Telescope, BatchPlanning('batch'), 'batch', sched, timestamp=0)
@@ -195,7 +199,7 @@ class Run:
                 t += 1
                 sim.resume(t)
         except Exception as e:
-            self.fail.append(('RUN', f"{type(e).__name__}: {e} :: {traceback.format_exc().splitlines()[-3].strip()}"))
+            self.fail.append((self.run_failure_is, f"{type(e).__name__}: {e} :: {traceback.format_exc().splitlines()[-3].strip()}"))
             return
         self.final_checks(snaps, t)
 
